@@ -96,6 +96,11 @@ func (r *recRun) term(id int64) string {
 		out = "mm(" + a + "," + b + ")"
 	case "sumlist":
 		out = flat("sum", n.args)
+	case "T":
+		out = r.term(n.args[0]) + "T"
+		if strings.HasSuffix(out, "TT") {
+			out = strings.TrimSuffix(out, "TT") // transposed twice
+		}
 	case "slice":
 		src := r.term(n.args[0])
 		parts := strings.Split(n.lit, ",")
@@ -220,20 +225,7 @@ const (
 func (c *Ctx) recWalk(oi *opInfo, name string, cell recCell, cov *pcover) (r *recRun, outs []pval, followed bool) {
 	st := c.libInit()
 	onnxPkg := c.pkgByPath[pkgOnnx]
-	ctor := oi.ctor
-	if ctor == nil {
-		// the constructor registered under the operator's name
-		for g, v := range st.globals {
-			if v.k != pMap || g.Pkg == nil || g.Pkg.Pkg.Path() != pkgOpset13 {
-				continue
-			}
-			if mm := st.heap.maps[v.i]; mm != nil {
-				if f, ok := mm.get(pval{k: pStr, s: name}); ok && f.k == pFunc {
-					ctor = f.fn
-				}
-			}
-		}
-	}
+	ctor := c.registeredCtor(oi, name)
 	if len(st.failed) > 0 || onnxPkg == nil || ctor == nil || oi.methods["Init"] == nil || oi.methods["Apply"] == nil {
 		if os.Getenv("RECDEBUG") != "" {
 			fmt.Println("RECDEBUG setup:", st.failed, onnxPkg != nil, ctor != nil)
@@ -448,6 +440,9 @@ func (c *Ctx) recWalk(oi *opInfo, name string, cell recCell, cov *pcover) (r *re
 		name := key[len(pkgTensor)+1:]
 		switch name {
 		case "Add", "Mul", "Sub", "Div":
+			if len(ops) >= 3 && !(ops[2].k == pNil || ops[2].k == pList && len(h.lists[ops[2].i]) == 0) {
+				return nil, false // an in-place option: the operation writes into an operand, not this table's vocabulary
+			}
 			if len(ops) >= 2 && isT(ops[0]) && isT(ops[1]) {
 				v := r.node(name, "", ops[0].i, ops[1].i)
 				if sh, ok := r.shape[ops[0].i]; ok {
@@ -595,6 +590,9 @@ func (c *Ctx) recWalk(oi *opInfo, name string, cell recCell, cov *pcover) (r *re
 		}
 		return nil, false
 	}
+	p.onPanic = func(fn *ssa.Function, in ssa.Instruction, what string) {
+		r.setBad("panics: " + what + " at " + c.pos(in.Pos()))
+	}
 	p.onDyn = func(fn *ssa.Function, call *ssa.Call, args []pval, h *pheap) ([]pval, bool) {
 		if len(args) == 2 && args[0].k == pHookFn && isT(args[1]) {
 			if nm, ok := r.acts[args[0].i]; ok {
@@ -620,6 +618,9 @@ func (c *Ctx) recWalk(oi *opInfo, name string, cell recCell, cov *pcover) (r *re
 		return r, nil, false
 	}
 	res, h = p.run(oi.methods["Apply"], []pval{op, h.alloc(inputs)}, 0, h)
+	if r.bad != "" && strings.HasPrefix(r.bad, "panics: ") {
+		return r, nil, true
+	}
 	if p.aborted || len(res) != 2 {
 		return r, nil, false
 	}
@@ -892,4 +893,25 @@ func ruleRecurrentTable(c *Ctx, prop string) {
 			c.counts["R40.cells"] += cells
 		}
 	}
+}
+
+// registeredCtor is the operator's constructor: the one found with its type, or the function registered under the
+// operator's ONNX name in the opset's table.
+func (c *Ctx) registeredCtor(oi *opInfo, name string) *ssa.Function {
+	if oi.ctor != nil {
+		return oi.ctor
+	}
+	st := c.libInit()
+	var ctor *ssa.Function
+	for g, v := range st.globals {
+		if v.k != pMap || g.Pkg == nil || g.Pkg.Pkg.Path() != pkgOpset13 {
+			continue
+		}
+		if mm := st.heap.maps[v.i]; mm != nil {
+			if f, ok := mm.get(pval{k: pStr, s: name}); ok && f.k == pFunc {
+				ctor = f.fn
+			}
+		}
+	}
+	return ctor
 }
